@@ -12,6 +12,11 @@ def build_corpus(rng, tier):
     decls += corpus.gen_float_guards(rng.fork("float"), per_type=48 * k)
     decls += corpus.gen_str_guards(rng.fork("str"), n=160 * k)
     decls += corpus.gen_any_guards(rng.fork("any"), n=32 * k)
+    # the unsafe escape hatch on a part of the corpus (it must not change anything else)
+    from syntax import tid
+    for i, d in enumerate(decls):
+        if i % 11 == 5 and not d.generics:
+            d.toks = [tid("new_unchecked"), ("c",)] + d.toks
     return decls
 
 
